@@ -136,6 +136,9 @@ def run(rep: Report) -> None:
     rep.check(not extra, "vsl-class-diff", "LinkWithVsl overrides", f"{prog.modules[vsl.module].relpath}:{vsl.node.lineno}",
               f"LinkWithVsl also overrides {extra}: with equal equilibrium speed it no longer is Link's step",
               key="vsl-class")
+    from .. import ctor
+
+    ctor.check(rep, groups=("vsl", "origin"))
 
     # per topology class: LinkWithVsl with infinite limits == Link
     cks = wire_results(rep, "base")
